@@ -78,7 +78,11 @@ class FieldElement:
         # self.num**(p-1) % p == 1
         # you might want to use % operator on n
         prime = self.prime
-        num = pow(self.num, n % (prime - 1), prime)
+        if self.num == 0 and n > 0:
+            # 0 to a positive power is 0 even if n is a multiple of prime - 1
+            num = 0
+        else:
+            num = pow(self.num, n % (prime - 1), prime)
         return self.__class__(num, prime)
 
     def __truediv__(self, other):
